@@ -784,11 +784,21 @@ static void fill_origin(const struct sconn *c, const struct sfd *l, struct socka
 	case ORG_V6_MAPPED_LOOP:
 	case ORG_V6_MAPPED_127_2:
 	case ORG_V6_MAPPED_REMOTE:
+	case ORG_V6_SUFFIX_127:
+	case ORG_V6_PREFIXED_MAPPED:
+	case ORG_V6_COMPAT_127:
+	case ORG_V6_HIGH_1:
+	case ORG_V6_UNSPECIFIED:
 	case ORG_V6_REMOTE: {
+		static const uint8_t v6_suffix127[16] = {0xfd, 0, 0, 0, 0, 0, 0, 0, 0, 0, 0, 0, 127, 0, 0, 1};
+		static const uint8_t v6_prefixed[16] = {0, 1, 0, 2, 0, 3, 0, 4, 0, 5, 0xff, 0xff, 127, 0, 0, 1};
+		static const uint8_t v6_compat[16] = {0, 0, 0, 0, 0, 0, 0, 0, 0, 0, 0, 0, 127, 0, 0, 1};
+		static const uint8_t v6_high1[16] = {0x80, 0, 0, 0, 0, 0, 0, 0, 0, 0, 0, 0, 0, 0, 0, 1};
+		static const uint8_t v6_unspec[16] = {0};
 		struct sockaddr_in6 *s = (struct sockaddr_in6 *)&ss;
 		s->sin6_family = AF_INET6;
 		s->sin6_port = htons(40000);
-		const uint8_t *a = origin == ORG_V6_LOOPBACK ? v6_loop : origin == ORG_V6_MAPPED_LOOP ? v6_map_loop : origin == ORG_V6_MAPPED_127_2 ? v6_map_1272 : origin == ORG_V6_MAPPED_REMOTE ? v6_map_rem : v6_rem;
+		const uint8_t *a = origin == ORG_V6_LOOPBACK ? v6_loop : origin == ORG_V6_MAPPED_LOOP ? v6_map_loop : origin == ORG_V6_MAPPED_127_2 ? v6_map_1272 : origin == ORG_V6_MAPPED_REMOTE ? v6_map_rem : origin == ORG_V6_SUFFIX_127 ? v6_suffix127 : origin == ORG_V6_PREFIXED_MAPPED ? v6_prefixed : origin == ORG_V6_COMPAT_127 ? v6_compat : origin == ORG_V6_HIGH_1 ? v6_high1 : origin == ORG_V6_UNSPECIFIED ? v6_unspec : v6_rem;
 		memcpy(s->sin6_addr.s6_addr, a, 16);
 		len = sizeof(*s);
 		break;
